@@ -143,7 +143,10 @@ def write_meta(collected):
                  '/repo apply`), `demo.py` (fails with the patch, passes '
                  'without; run with the patched tree as cwd), `notes.md`, '
                  '`meta.json`. Names: `<property>_<a|b>` first round, '
-                 '`<property>_2<a|b|c>` second round.\n\n')
+                 '`<property>_2<a|b|c>` second round, `_3<a|b|c>` third '
+                 '(indirect / history or edge input / subtle), `_4<a|b|c>` '
+                 'fourth (two-place / optimisation gone wrong / '
+                 'modernisation gone wrong).\n\n')
         fh.write('| seed | breaks | confirmed | detected by (exit 1) | '
                  'inconclusive (exit 2) |\n|---|---|---|---|---|\n')
         for m in rows:
@@ -170,8 +173,11 @@ def write_meta(collected):
     with open(os.path.join(bd, 'INDEX.md'), 'w') as fh:
         fh.write('# Behaviour-preserving refactorings and what the checks '
                  'say\n\n`<area>_rN` first round (tidying), `<area>2_rN` '
-                 'second round (structural). A check that exits 1 on one of '
-                 'these is a false alarm.\n\n| patch | exit 1 (false alarm) '
+                 'second round (structural), `<area>3_rN` third round '
+                 '(changes that look risky but are correct), `<area>4_rN` / '
+                 '`own4_rN` fourth round (two-place refactorings, '
+                 'optimisations and modernisations done right). A check that '
+                 'exits 1 on one of these is a false alarm.\n\n| patch | exit 1 (false alarm) '
                  '| exit 2 (inconclusive) |\n|---|---|---|\n')
         nb = nf = ni = 0
         for (k, n), res in sorted(collected.items()):
